@@ -174,6 +174,54 @@ theorem closures_are_immutable_expr (fuel : Nat) (e : Expr) (s : St) (id : Nat) 
     (evalExpr fuel e s).closures[id]? = s.closures[id]? :=
   ((mono_all fuel).evalExpr e s).closure_stable id hid
 
+/-! ### a `var` statement binds after ALL its right sides are evaluated -/
+
+/-- `var n1, n2, ... = e1, e2, ...`: every right side is evaluated first, left to right, in the bindings that
+held before the statement; if one of them fails, the statement ends in the state that evaluation left -
+NO name of the statement is bound (a later right side never sees an earlier name half-declared, and a
+failing initialiser leaves nothing behind). -/
+theorem var_failing_initialiser_binds_nothing (fuel : Nat) (names : List String) (es : List Expr) (s : St)
+    (hp : s.poll.1 = false)
+    (hn : 1 ≤ names.length) (he : 1 ≤ es.length) (herr : (evalList fuel es s.poll.2).2.err.isSome = true) :
+    execStmt (fuel + 1) (.varS names es) s = (evalList fuel es s.poll.2).2 := by
+  unfold execStmt
+  have h1 : ¬ (names.length < 1) := by omega
+  have h2 : ¬ (es.length < 1) := by omega
+  simp +zeta only [hp, h1, h2, herr, decide_false, Bool.false_eq_true, Bool.or_self, if_false, if_true]
+
+/-- ... and if all succeed and there are as many values as names (or one name), the names are bound, in the
+current scope only, in the state the evaluation of the LAST right side left (`s.poll`: the statement first
+polls the context; `hp` says the run is not being cancelled). -/
+theorem var_binds_after_all_right_sides (fuel : Nat) (names : List String) (es : List Expr) (s : St)
+    (hp : s.poll.1 = false)
+    (hn : 1 ≤ names.length) (he : 1 ≤ es.length) (hok : (evalList fuel es s.poll.2).2.err.isSome = false)
+    (hshape : ¬ ((evalList fuel es s.poll.2).1.length = 1 ∧ 1 < names.length)) :
+    execStmt (fuel + 1) (.varS names es) s =
+      { (evalList fuel es s.poll.2).2.defineAll (evalList fuel es s.poll.2).2.cur (names.zip (evalList fuel es s.poll.2).1)
+          with rv := (evalList fuel es s.poll.2).1.getLastD nilRV } := by
+  unfold execStmt
+  have h1 : ¬ (names.length < 1) := by omega
+  have h2 : ¬ (es.length < 1) := by omega
+  have h3 : ((evalList fuel es s.poll.2).1.length == 1 && decide (names.length > 1)) = false := by
+    by_cases a : (evalList fuel es s.poll.2).1.length = 1 <;> by_cases b : 1 < names.length <;> simp_all
+  simp +zeta only [hp, h1, h2, hok, h3, decide_false, Bool.false_eq_true, Bool.or_self, if_false]
+
+/-- a float interface that is never consulted (for closed witnesses without floats) -/
+def noFloats : FOps :=
+  { add := fun _ _ => 0, sub := fun _ _ => 0, mul := fun _ _ => 0, div := fun _ _ => 0, neg := fun _ => 0,
+    lt := fun _ _ => false, le := fun _ _ => false, eq := fun _ _ => false, ofInt := fun _ => 0,
+    toInt := fun _ => none, fmt := fun _ => none, parse := fun _ => none }
+
+/-- closed witness: `a = 1; b = 2; if true { var a, b = b, a; r = [a, b] }` leaves `[2, 1]` in `r` -/
+example :
+    (match (@execStmts noFloats ⟨true⟩ 20
+        [.lets [.ident "a"] [.lit (.int 1)], .lets [.ident "b"] [.lit (.int 2)], .lets [.ident "r"] [.lit .nil],
+         .ifS (.lit (.bool true))
+           (.stmts [.varS ["a", "b"] [.ident "b", .ident "a"], .lets [.ident "r"] [.array [.ident "a", .ident "b"]]]) [] .nilS,
+         .expr (.ident "r")]
+        (St.init none)).rv.v with | .list [.int 2, .int 1] => true | _ => false) = true := by
+  decide +kernel
+
 /-! ### Non-vacuity -/
 example : chain #[⟨none, []⟩, ⟨some 0, []⟩, ⟨some 0, []⟩] 5 2 = [2, 0] := by decide
 
